@@ -42,4 +42,11 @@ def responseOK (lim : Int) (s : Src) (backendStatus status : Nat) (delivered : B
   else if isShort s || (size s : Int) > lim then status ≥ 500 && !delivered
   else status == backendStatus && delivered
 
+/-- Response direction, **stream mode**: nothing is buffered and the status line may be on the wire before the body
+turns out to be short, so the property is about what the client observes — a short body ⇒ the transfer is visibly
+aborted (connection closed before the message is complete; never a clean, complete message); an honest body ⇒ a
+complete message with the backend's status. -/
+def streamResponseOK (s : Src) (backendStatus status : Nat) (aborted : Bool) : Bool :=
+  if isShort s then aborted else !aborted && status == backendStatus
+
 end EgVerif.Payload.Spec
